@@ -15,6 +15,12 @@
 //   reference gives for it; `pre=-` means the observed call is the very first one. Absent (older replay files): one
 //   decoy call at tsn+1000000007. The time text of a call is a function of its timestamp alone, whatever came before
 //   (timestamp 0 and repeated timestamps included) — reference: a fresh TimestampFormatter per text.
+//   mb loggers=<name>:<ml>:x<pattern>,… sinks=-|<ml>:x<override pattern>,… attach=<s>.<s>,… calls=<logger>:x<msg>,…
+//        => ok c0=s<k>:x<stmt>+x<stmt>/s<k>:… c1=… (per call: what each sink received, in the logger's sink order; `-` = nothing)
+//   (mb: two or three fresh loggers — some with equal PatternFormatterOptions, so that the backend shares one formatter
+//   between them, some not — with fresh recording sinks of which some carry an override pattern and some are attached to
+//   two loggers; the calls are dispatched one by one in the given order. Logger names in the input part are informative:
+//   a replay creates fresh ones.)
 // The harness also judges the property itself with an independent reference (direct substitution using fmtquill::format
 // on the single value with the single spec; std::string splitting) and prints `ORACLE <class> …` lines:
 //   brace-literal  : a literal chunk of the pattern contains `{` or `}` and the line is not the direct substitution (F7)
@@ -22,6 +28,8 @@
 //   rejection      : reference rejects (unknown attribute / unterminated `%(`) but the constructor accepted, or vice versa
 //   multiline      : statements handed to the sink differ from the reference split / strip rule
 //   metadata       : file/line/function seen by the sink differ from what was logged
+//   override       : a sink did not receive the substitution of the pattern that applies to it — its own override pattern
+//                    if it has one, else its logger's (pieces split by the logger's multi-line flag)
 // `NOTE …` lines record behaviour that is by design outside the property (counted in the evidence).
 // All strings are hex (prefix x), absent = -.  Exit code 3 if any ORACLE line was printed, else 0.
 #include "quill/Backend.h"
@@ -40,6 +48,7 @@
 #include <iostream>
 #include <map>
 #include <memory>
+#include <optional>
 #include <sstream>
 #include <string>
 #include <utility>
@@ -420,6 +429,8 @@ struct Rec
 
 struct RecSink : Sink
 {
+  RecSink() = default;
+  explicit RecSink(std::optional<PatternFormatterOptions> override_options) : Sink(std::move(override_options)) {}
   std::vector<Rec> recs;
   void write_log(MacroMetadata const* md, uint64_t, std::string_view, std::string_view, std::string const&,
                  std::string_view logger_name, LogLevel, std::string_view lvl, std::string_view lvls,
@@ -638,6 +649,184 @@ static void run_be(BeCase const& c)
     ++g_oracle;
     ++g_stats[brace ? "oracle_brace_literal" : "oracle_multiline"];
   }
+}
+
+
+// ------------------------------------------------------------------------------------------------
+// multi-logger backend cases: formatter sharing between loggers, sink override patterns
+// ------------------------------------------------------------------------------------------------
+struct MbLogger
+{
+  std::string pattern;
+  bool ml{true};
+  std::vector<unsigned> sinks;
+  std::string name; // assigned when run
+};
+struct MbSink
+{
+  bool has_override{false};
+  std::string pattern;
+  bool ml{true};
+};
+struct MbCase
+{
+  std::vector<MbLogger> loggers;
+  std::vector<MbSink> sinks;
+  std::vector<std::pair<unsigned, std::string>> calls;
+};
+
+static unsigned long g_mb_serial = 0;
+
+static void run_mb(MbCase& c)
+{
+  backend_init();
+  unsigned long const serial = g_mb_serial++;
+  std::vector<std::shared_ptr<Sink>> sinks;
+  std::vector<RecSink*> recs;
+  for (size_t k = 0; k < c.sinks.size(); ++k)
+  {
+    std::optional<PatternFormatterOptions> ov;
+    if (c.sinks[k].has_override) { ov = PatternFormatterOptions{c.sinks[k].pattern, "%H:%M:%S.%Qns", Timezone::GmtTime, c.sinks[k].ml}; }
+    sinks.push_back(Frontend::create_or_get_sink<RecSink>("mbs" + std::to_string(serial) + "_" + std::to_string(k), ov));
+    recs.push_back(static_cast<RecSink*>(sinks.back().get()));
+  }
+  std::vector<quill::Logger*> loggers;
+  for (size_t i = 0; i < c.loggers.size(); ++i)
+  {
+    auto& l = c.loggers[i];
+    // distinct, in-range sink indices
+    std::vector<unsigned> att;
+    for (unsigned k : l.sinks)
+    {
+      if (k < sinks.size() && std::find(att.begin(), att.end(), k) == att.end()) { att.push_back(k); }
+    }
+    l.sinks = att;
+    std::vector<std::shared_ptr<Sink>> ls;
+    for (unsigned k : l.sinks) { ls.push_back(sinks[k]); }
+    l.name = "mbl" + std::to_string(serial) + "_" + std::to_string(i);
+    loggers.push_back(Frontend::create_or_get_logger(l.name, ls, PatternFormatterOptions{l.pattern, "%H:%M:%S.%Qns", Timezone::GmtTime, l.ml},
+                                                     ClockSourceType::System));
+  }
+  std::ostringstream os;
+  os << "mb loggers=";
+  for (size_t i = 0; i < c.loggers.size(); ++i)
+  {
+    os << (i ? "," : "") << c.loggers[i].name << ":" << (c.loggers[i].ml ? 1 : 0) << ":" << hex(c.loggers[i].pattern);
+  }
+  os << " sinks=";
+  for (size_t k = 0; k < c.sinks.size(); ++k)
+  {
+    os << (k ? "," : "");
+    if (c.sinks[k].has_override) { os << (c.sinks[k].ml ? 1 : 0) << ":" << hex(c.sinks[k].pattern); }
+    else { os << "-"; }
+  }
+  os << " attach=";
+  for (size_t i = 0; i < c.loggers.size(); ++i)
+  {
+    os << (i ? "," : "");
+    for (size_t j = 0; j < c.loggers[i].sinks.size(); ++j) { os << (j ? "." : "") << c.loggers[i].sinks[j]; }
+    if (c.loggers[i].sinks.empty()) { os << "-"; }
+  }
+  os << " calls=";
+  {
+    bool first = true;
+    for (auto const& call : c.calls)
+    {
+      if (call.first >= c.loggers.size()) { continue; }
+      os << (first ? "" : ",") << call.first << ":" << hex(call.second);
+      first = false;
+    }
+    if (first) { os << "-"; }
+  }
+  os << " => ok";
+  std::vector<std::string> oracle_lines;
+  unsigned kcall = 0;
+  std::vector<bool> first_used(c.loggers.size(), false);
+  for (auto const& call : c.calls)
+  {
+    if (call.first >= c.loggers.size()) { continue; }
+    MbLogger const& l = c.loggers[call.first];
+    for (auto* r : recs) { r->recs.clear(); }
+    site_plain(loggers[call.first], call.second);
+    for (int i = 0; i < 4; ++i) { g_mw->poll_one(); }
+    // distribution: a first use after another logger with equal options, with a sink that has an override
+    if (!first_used[call.first])
+    {
+      bool shares = false, has_ov = false;
+      for (size_t j = 0; j < c.loggers.size(); ++j)
+      {
+        if (j != call.first && first_used[j] && c.loggers[j].pattern == l.pattern && c.loggers[j].ml == l.ml) { shares = true; }
+      }
+      for (unsigned k : l.sinks) { has_ov = has_ov || c.sinks[k].has_override; }
+      ++g_stats[shares ? "mb_first_use_shares_formatter" : "mb_first_use_creates_formatter"];
+      if (shares && has_ov) { ++g_stats["mb_first_use_shares_formatter_and_has_override_sink"]; }
+      first_used[call.first] = true;
+    }
+    os << " c" << kcall << "=";
+    bool any = false;
+    std::vector<unsigned> order = l.sinks;
+    for (unsigned k = 0; k < recs.size(); ++k)
+    {
+      if (std::find(order.begin(), order.end(), k) == order.end() && !recs[k]->recs.empty()) { order.push_back(k); }
+    }
+    for (unsigned k : order)
+    {
+      bool const attached = std::find(l.sinks.begin(), l.sinks.end(), k) != l.sinks.end();
+      if (recs[k]->recs.empty() && !attached) { continue; }
+      os << (any ? "/" : "") << "s" << k << ":";
+      any = true;
+      for (size_t q = 0; q < recs[k]->recs.size(); ++q) { os << (q ? "+" : "") << hex(recs[k]->recs[q].statement); }
+      // ---- the property: substitution of the pattern that applies to this sink ----
+      std::string const& pat = (attached && c.sinks[k].has_override) ? c.sinks[k].pattern : l.pattern;
+      std::vector<std::string> expected;
+      bool in_domain = true, any_error = false;
+      if (attached)
+      {
+        for (auto const& part : ref_split(call.second, l.ml, false))
+        {
+          FmtCase f;
+          f.pattern = pat;
+          f.logger = l.name;
+          f.lvl = "INFO";
+          f.lvls = "I";
+          f.src = "/virtual/h3/site.cpp:1000";
+          f.fn = "site_plain";
+          f.msg = part;
+          bool dom = true, br = false;
+          std::string why;
+          std::string const e = ref_expected(f, dom, br, why);
+          in_domain = in_domain && dom && !br;
+          if (e.rfind("line ", 0) == 0) { expected.push_back(e.substr(5)); }
+          else { any_error = true; }
+        }
+      }
+      if (!in_domain || any_error) { continue; }
+      bool same = expected.size() == recs[k]->recs.size();
+      for (size_t q = 0; same && q < expected.size(); ++q) { same = expected[q] == hex(recs[k]->recs[q].statement); }
+      if (!same)
+      {
+        std::ostringstream o;
+        o << "ORACLE override call=" << kcall << " logger=" << call.first << " sink=" << k
+          << (attached ? (c.sinks[k].has_override ? " applies=sink-override" : " applies=logger-pattern") : " applies=nothing(sink-not-attached)")
+          << " pattern=" << hex(pat) << " expected n=" << expected.size();
+        for (auto const& e : expected) { o << " " << e; }
+        o << " got n=" << recs[k]->recs.size();
+        for (auto const& r : recs[k]->recs) { o << " " << hex(r.statement); }
+        oracle_lines.push_back(o.str());
+      }
+    }
+    if (!any) { os << "-"; }
+    ++kcall;
+  }
+  std::cout << os.str() << "\n";
+  for (auto const& o : oracle_lines)
+  {
+    std::cout << o << "\n";
+    ++g_oracle;
+    ++g_stats["oracle_override"];
+  }
+  for (auto* lg : loggers) { Frontend::remove_logger(lg); }
+  for (int i = 0; i < 3; ++i) { g_mw->poll_one(); }
 }
 
 // ------------------------------------------------------------------------------------------------
@@ -1092,6 +1281,60 @@ static void gen_be_cases(Rng& r, unsigned n)
   }
 }
 
+
+static void gen_mb_cases(Rng& r, unsigned n)
+{
+  static std::vector<std::string> const lpat = {"|%(logger)|%(message)", " %(log_level_short_code) %(message:<8)|",
+                                                " [%(file_name):%(line_number)] %(message)", " %(message)"};
+  static std::vector<std::string> const opat = {" OV>%(message)<", " OV %(logger:>10) %(log_level) %(message)",
+                                                " OV[%(caller_function)] %(message:.^9)", " %(message)"};
+  auto const arr = newline_arrangements();
+  for (unsigned i = 0; i < n; ++i)
+  {
+    // the tag makes the options of this case different from those of every other case of the run: formatter sharing
+    // happens (or not) between the loggers of the case only
+    std::string const tag = "G" + std::to_string(i);
+    MbCase c;
+    unsigned const nl = 2 + r.below(2);
+    unsigned const pool = 1 + r.below(2);
+    unsigned const p0 = r.below(static_cast<unsigned>(lpat.size()));
+    bool const vary_ml = r.chance(25);
+    for (unsigned j = 0; j < nl; ++j)
+    {
+      MbLogger l;
+      l.pattern = tag + lpat[(p0 + r.below(pool)) % lpat.size()];
+      l.ml = vary_ml ? r.chance(50) : true;
+      c.loggers.push_back(l);
+    }
+    unsigned const ns = 1 + r.below(4);
+    for (unsigned k = 0; k < ns; ++k)
+    {
+      MbSink sk;
+      sk.has_override = r.chance(55);
+      if (sk.has_override)
+      {
+        sk.pattern = tag + r.pick(opat);
+        sk.ml = r.chance(70);
+      }
+      c.sinks.push_back(sk);
+    }
+    for (auto& l : c.loggers)
+    {
+      unsigned const na = 1 + r.below(2);
+      for (unsigned a = 0; a < na; ++a) { l.sinks.push_back(r.below(ns)); }
+    }
+    unsigned const ncalls = 3 + r.below(5);
+    for (unsigned k = 0; k < ncalls; ++k)
+    {
+      std::string msg = r.chance(70) ? gen_ascii(r, 1 + r.below(10), "abcdefgh XYZ019") : r.pick(arr);
+      c.calls.push_back({r.below(nl), msg});
+    }
+    run_mb(c);
+    ++g_stats["mb_cases"];
+    ++g_stats["mb_loggers_" + std::to_string(nl)];
+  }
+}
+
 // ------------------------------------------------------------------------------------------------
 // replay
 // ------------------------------------------------------------------------------------------------
@@ -1201,6 +1444,62 @@ static int replay(char const* path)
       c.fn = get_hex(kv, "fn");
       run_be(c);
     }
+    else if (head == "mb")
+    {
+      MbCase c;
+      auto split = [](std::string const& t, char sep)
+      {
+        std::vector<std::string> out;
+        std::string cur;
+        for (char ch : t)
+        {
+          if (ch == sep) { out.push_back(cur); cur.clear(); }
+          else { cur.push_back(ch); }
+        }
+        out.push_back(cur);
+        return out;
+      };
+      for (auto const& lt : split(kv["loggers"], ','))
+      {
+        auto const f = split(lt, ':'); // name:ml:xpattern
+        if (f.size() < 3) { continue; }
+        MbLogger l;
+        l.ml = f[1] != "0";
+        unhex(f[2], l.pattern);
+        c.loggers.push_back(l);
+      }
+      for (auto const& stx : split(kv["sinks"], ','))
+      {
+        MbSink sk;
+        auto const f = split(stx, ':');
+        if (f.size() >= 2)
+        {
+          sk.has_override = true;
+          sk.ml = f[0] != "0";
+          unhex(f[1], sk.pattern);
+        }
+        c.sinks.push_back(sk);
+      }
+      {
+        auto const at = split(kv["attach"], ',');
+        for (size_t i = 0; i < at.size() && i < c.loggers.size(); ++i)
+        {
+          for (auto const& x : split(at[i], '.'))
+          {
+            if (!x.empty() && x[0] >= '0' && x[0] <= '9') { c.loggers[i].sinks.push_back(static_cast<unsigned>(std::stoul(x))); }
+          }
+        }
+      }
+      for (auto const& ct : split(kv["calls"], ','))
+      {
+        auto const f = split(ct, ':');
+        if (f.size() < 2 || f[0].empty() || f[0][0] < '0' || f[0][0] > '9') { continue; }
+        std::string m;
+        unhex(f[1], m);
+        c.calls.push_back({static_cast<unsigned>(std::stoul(f[0])), m});
+      }
+      run_mb(c);
+    }
   }
   return 0;
 }
@@ -1226,6 +1525,8 @@ int main(int argc, char** argv)
     gen_fmt_cases(rng, rng2, nfmt);
     if (exh) { gen_exhaustive_subsets(rng); }
     gen_be_cases(rng, nbe);
+    Rng rng3(seed * 0x9E3779B97F4A7C15ull + 0x6d62ull);
+    gen_mb_cases(rng3, nbe / 8);
     print_stats();
     std::cout.flush();
     return g_oracle ? 3 : 0;
